@@ -625,4 +625,17 @@ theorem resolveGotos_flag (es es' : List Elem) (h : resolveGotos es = .ok es') (
   | error m => rw [hc] at h; cases h
   | ok tbl => rw [hc] at h; exact resolveFrom_flag tbl es 0 es' h i e e' hi hi'
 
+theorem prepend_plain_ok (es : List Elem) (h : OffsetsInBounds es) (hr : Resolved es) :
+    OffsetsInBounds (startFlowElem :: es) ∧ Resolved (startFlowElem :: es) := by
+  constructor
+  · have h1 : OffsetsInBounds [startFlowElem] := by
+      intro j e hj
+      cases j with
+      | zero => simp at hj; subst hj; exact okAt_plain _ _ "start_flow" false none
+      | succ j => simp at hj
+    exact offsetsInBounds_append [startFlowElem] es h1 h
+  · intro e he
+    rcases List.mem_cons.1 he with he | he
+    · subst he; simp [startFlowElem]
+    · exact hr e he
 end NemoVerif.V1Compile
